@@ -54,6 +54,8 @@ inline std::vector<PVal> paramMenu() {
     m.push_back({"se", [](Param& p) { p.set(std::vector<std::string>() = {}); }});
     m.push_back({"i321", [](Param& p) { p.set(std::vector<int>() = {1, 2, 3, 4, 5, 6}, {3, 2, 1}); }});
     m.push_back({"i9", [](Param& p) { p.set(std::vector<int>() = {-32768, 32767, 255, 256, 127, 128, -1, -128, -129}, {3, 3}); }});   // 8- and 16-bit boundaries
+    m.push_back({"fz+", [](Param& p) { p.set(std::vector<float>() = {0.0f, 1.0f, 0.0f}); }});     // the same values up to the SIGN OF ZERO:
+    m.push_back({"fz-", [](Param& p) { p.set(std::vector<float>() = {-0.0f, 1.0f, 0.0f}); }});    // a replacement by one of them must not be taken for "no change"
     m.push_back({"i11", [](Param& p) { p.set(std::vector<int>() = {-5}, {1, 1}); }});                       // one value, two dimensions
     m.push_back({"f111", [](Param& p) { p.set(std::vector<float>() = {6.5f}, {1, 1, 1}); }});
     m.push_back({"sctl", [](Param& p) { p.set(std::vector<std::string>() = {"tab\t", "cr\r\n", "x y", "\f"}); }});   // control white-space is content, only spaces are padding
